@@ -24,6 +24,7 @@ request after Unbind ends the connection, and then nobody is left waiting.
 -/
 import Ldap3V.Lemmas.ConnPend
 import Ldap3V.Lemmas.ConnUnbind
+import Ldap3V.Lemmas.ConnDrain
 namespace Ldap3V.Conn
 
 /-- Whatever the state, when the driver ends: the queue and both routing maps are dropped; every
@@ -358,5 +359,55 @@ example :
       [(.taken, .frame ⟨1, 1, 7, true⟩, some (.frame ⟨1, 1, 7, true⟩)), (.taken, .ack, some .ack), (.taken, .dropped, none)] ∧
     (step s1 (.poll 2)).map (·.2) = some (.res (some .recvErr)) := by
   decide
+
+/-! ### the driver never waits for a consumer
+
+The response arm of `turn` delivers with `send` on an unbounded item channel / a oneshot: it cannot block.
+So unread search entries, unpolled futures and callers that are gone stall nothing: the one task that reads
+the socket keeps reading, and therefore sees every answer and the loss of the connection.  (Seeded change
+C04d made the item channel bounded and awaited the send: with 257 unread entries the driver stood still;
+lane `faults`: `unread-search-items-do-not-stall-the-connection`.) -/
+
+/-- With the driver running and a frame in the input, the response step is ENABLED — whatever the search
+channels and reply slots hold: no hypothesis on `chans` or `ops` — and it consumes exactly that frame (the
+connection may end with an error on it: a frame undecodable for a search). -/
+theorem C04_driver_never_waits_for_consumers (s : St) (f : Frame) (hr : s.drv = .running)
+    (hf : s.srvLog[s.pos]? = some f) :
+    ∃ s', step s .drvResp = some (s', .none) ∧ s'.srvLog = s.srvLog ∧ s'.pos = s.pos + 1 ∧
+      (s'.drv = .running ∨ s'.drv = .endedErr) :=
+  drvResp_frame s f hr hf
+
+/-- … hence `n` response steps from ANY state consume `n` frames (as far as there are that many) unless the
+connection ended on the way; and once everything has been consumed, the end of the input ends the driver —
+the loss of the connection is always seen. -/
+theorem C04_driver_drains_input (s : St) (n : Nat) (hle : s.pos + n ≤ s.srvLog.length) :
+    (run s (List.replicate n .drvResp)).srvLog = s.srvLog ∧
+    ((run s (List.replicate n .drvResp)).drv = .running →
+      (run s (List.replicate n .drvResp)).pos = s.pos + n ∧
+      (s.pos + n = s.srvLog.length → s.link ≠ .up → (run s (List.replicate n .drvResp)).link = s.link →
+        ∃ s', step (run s (List.replicate n .drvResp)) .drvResp = some (s', .none) ∧ s'.drv ≠ .running)) := by
+  obtain ⟨h1, h2⟩ := run_drvResp n s hle
+  refine ⟨h1, fun hr => ?_⟩
+  obtain ⟨_, hp⟩ := h2 hr
+  refine ⟨hp, fun hall hl hlk => ?_⟩
+  apply drvResp_end _ hr
+  · rw [h1, hp, hall]; simp
+  · rw [hlk]; exact hl
+
+/-- a search with 300 unread entries routed to its channel, a single operation answered after them, then the
+peer closes: 301 response steps consume everything (the single operation's reply sits in its slot), the
+302nd ends the driver -/
+def exUnread : List Ev :=
+  [.alloc .search, .enqueue 0 none, .drvOp true, .alloc .single, .enqueue 1 none, .drvOp true] ++
+    (List.replicate 300 (.srvSend ⟨1, 4, 7, false⟩)) ++ [.srvSend ⟨2, 11, 9, true⟩, .srvClose]
+
+example :
+    let s := run (init 100) exUnread
+    s.drv = .running ∧ s.pos = 0 ∧ s.srvLog.length = 301 ∧ s.link = .eof ∧
+    let s1 := run s (List.replicate 301 .drvResp)
+    s1.drv = .running ∧ s1.pos = 301 ∧ (s1.chans.map (·.items.length)) = [300] ∧
+    s1.ops.map (·.mail) = [.ack, .frame ⟨2, 11, 9, true⟩] ∧
+    (step s1 .drvResp).map (·.1.drv) = some .endedOk := by
+  decide +kernel
 
 end Ldap3V.Conn
